@@ -222,6 +222,36 @@ def r1(n):
     return g(n - 1) + g(n - 2)
 
 
+def r_d2(x, default=2):
+    return _res('d2(%r,%r)' % (_R(x), _R(default)))
+
+
+def d2(x, default=2):
+    # a parameter whose NAME an implementation might want for itself
+    _enter('d2', show((x, default)))
+    return r_d2(x, default)
+
+
+def r_k1(*xs, scale):
+    return _res('k1(%r,%r)' % (_R(xs), _R(scale)))
+
+
+def k1(*xs, scale):
+    # variadic positionals plus a REQUIRED keyword-only parameter
+    _enter('k1', show((xs, scale)))
+    return r_k1(*xs, scale=scale)
+
+
+_GS = {'n': 0}     # module-level state read by the v1 functions (C20: must stay shared after a dill round trip)
+
+
+def _make_v1():
+    def v1(x, y=2):
+        _enter('v1', show((x, y)))
+        return 'v1(%r,%r)#%d' % (_R(x), _R(y), _GS['n'])
+    return v1            # a nested function: dill pickles it by value
+
+
 def r_b1(*a):
     return max(int(x) if isinstance(x, int) else x for x in a) if len(a) > 1 else max(*a)
 
@@ -259,12 +289,13 @@ def f6(x, y=2, *a, **kw):
 FUNCS = {'f1': (f1, r_f1), 'f2': (f2, r_f2), 'f3': (f3, r_f3),
          'f4': (f4, r_f4), 'f5': (f5, r_f5), 'f6': (f6, r_f6), 'f7': (f7, r_f7), 'f8': (f8, r_f8), 'f9': (f9, r_f9),
          'm2': (_M2, r_m2), 'c2': (_OBJ, r_c2), 'p2': (_P2, r_p2), 'w2': (w2, r_w2),
-         'b1': (max, r_b1), 'r1': (r1, r_r1)}          # a builtin without introspectable signature, always called with two Cnt
+         'b1': (max, r_b1), 'r1': (r1, r_r1), 'd2': (d2, r_d2), 'k1': (k1, r_k1), 'v1': (None, None)}          # a builtin without introspectable signature, always called with two Cnt
 # signature twins: f7 is spelled like f2, f8 like f4 (they differ in the default value only)
-SHAPE = {'f7': 'f2', 'f8': 'f4', 'm2': 'f2', 'c2': 'f2', 'p2': 'f2', 'w2': 'f2'}
-DFLT = {'f2': 2, 'f6': 2, 'f4': 1, 'f7': 7.26, 'f8': 7.26, 'm2': 2, 'c2': 2, 'p2': 2, 'w2': 2}
+SHAPE = {'f7': 'f2', 'f8': 'f4', 'm2': 'f2', 'c2': 'f2', 'p2': 'f2', 'w2': 'f2', 'd2': 'f2', 'v1': 'f2'}
+DFLT = {'f2': 2, 'f6': 2, 'f4': 1, 'f7': 7.26, 'f8': 7.26, 'm2': 2, 'c2': 2, 'p2': 2, 'w2': 2, 'd2': 2, 'v1': 2}
+KWNAME = {'d2': {'y': 'default'}}      # the second parameter of d2 is called `default`
 DEFAULTS = {'f2': ('y', 2), 'f6': ('y', 2), 'f4': ('k', 1), 'f7': ('y', 7.26), 'f8': ('k', 7.26)}
-VARIADIC = ('f3', 'f6', 'b1', 'w2')
+VARIADIC = ('f3', 'f6', 'b1', 'w2', 'k1')
 
 
 def sibling_of(fn):
@@ -345,7 +376,9 @@ def gen_config(rng, prop, tier):
         maxsize = rng.choice([30, 40])      # LFU evicts max(2, maxsize//10) entries: >2 only from 30 up
     purge = rng.chance(0.3) and prop != 'C06'
     fn = rng.weighted([(3, 'f1'), (4, 'f2'), (2, 'f3'), (2, 'f4'), (2, 'f5'), (2, 'f6'), (1, 'f7'), (1, 'f8'), (1, 'f9'), (1, 'b1'),
-                       (1, 'm2'), (1, 'c2'), (1, 'p2'), (1, 'w2')])
+                       (1, 'm2'), (1, 'c2'), (1, 'p2'), (1, 'w2'), (1, 'd2'), (1, 'k1')])
+    if prop == 'C20' and rng.chance(0.12):
+        fn = 'v1' 
     huge = prop == 'C06' and algo in ('lru', 'mru') and rng.chance(0.012)
     if huge:
         # a cache of a thousand entries and more than ten thousand recorded uses between two overflows
@@ -447,6 +480,8 @@ def logical_call(rng, fn, pool, tuples_ok):
     """one logical call as bound values; spelled separately"""
     if fn == 'r1':
         return {'x': rng.randint(0, 14)}
+    if fn == 'k1':
+        return {'a': [rng.choice(pool) for _ in range(rng.randint(0, 3))], 'k': rng.choice(pool[:4])}
     if fn == 'b1':
         ints = [p for p in pool if isinstance(p, int) and not isinstance(p, bool) and abs(p) < 2 ** 31] or [0, 1, 2]
         return {'x': rng.choice(ints), 'a': [rng.choice(ints)]}
@@ -475,6 +510,9 @@ def logical_call(rng, fn, pool, tuples_ok):
 def spell(rng, fn, c):
     """choose one of the spellings Python binds identically"""
     args, kw = [], []
+    rename = KWNAME.get(fn, {})
+    if fn == 'k1':
+        return {'op': 'call', 'a': [enc(v) for v in c['a']], 'kw': [['scale', enc(c['k'])]]}
     fn = SHAPE.get(fn, fn)
     if fn == 'r1':
         return {'op': 'call', 'a': [c['x']], 'kw': []}
@@ -547,7 +585,7 @@ def spell(rng, fn, c):
         kws = list(c.get('kw', []))
         rng.shuffle(kws)
         kw.extend(kws)
-    return {'op': 'call', 'a': [enc(v) for v in args], 'kw': [[n, enc(v)] for n, v in kw]}
+    return {'op': 'call', 'a': [enc(v) for v in args], 'kw': [[rename.get(n, n), enc(v)] for n, v in kw]}
 
 
 BAD_ARGS = [[1, 2], {'$d': [['a', 1]]}, {'$s': [1, 2]}, {'$o': 'badrepr'}, {'$o': 'unpicklable'},
@@ -571,7 +609,7 @@ OPMIX = {
             (2, 'on'), (2, 'restart_dump')],
     'C18': [(50, 'call'), (5, 'mcall'), (2, 'sibling_call'), (14, 'key'), (14, 'lookup'), (3, 'rcall'), (3, 'load'), (3, 'dump'),
             (2, 'clear'), (2, 'off'), (2, 'on'), (2, 'restart_dump')],
-    'C20': [(60, 'call'), (3, 'load'), (3, 'dump'), (2, 'clear'), (1, 'clear_keep'), (2, 'off'), (2, 'on'),
+    'C20': [(60, 'call'), (5, 'gset'), (3, 'load'), (3, 'dump'), (2, 'clear'), (1, 'clear_keep'), (2, 'off'), (2, 'on'),
             (3, 'rcall')],
 }
 
@@ -614,6 +652,10 @@ def generate(rng, prop, tier):
         mix = [(w, k) for (w, k) in mix if k != 'sibling_call']
     if not (cfg['backend'] and cfg['backend'].get('rel')):
         mix = [(w, k) for (w, k) in mix if k != 'chdir']
+    if fn != 'v1':
+        mix = [(w, k) for (w, k) in mix if k != 'gset']
+    if fn in ('k1', 'v1', 'd2'):
+        mix = [(w, k) for (w, k) in mix if k not in ('bad', 'mcall', 'sibling_call')]
     if cfg.get('unenc'):
         mix = [(w, k) for (w, k) in mix if k not in ('restart', 'restart_dump', 'swap', 'peer_call', 'clear')]
     if fn in ('r1', 'b1') or cfg['keymap']['kind'] == 'raw' or cfg.get('ignore') is not None or \
@@ -772,6 +814,9 @@ class World(object):
         self.evals = []
         self.raise_next = None
         self.fn, self.rfn = FUNCS[self.cfg['fn']]
+        if self.cfg['fn'] == 'v1':
+            self.fn, self.rfn = _make_v1(), None
+            _GS['n'] = 0
         _BIGRES[0] = bool(self.cfg.get('bigres'))
         _UNENC[0] = bool(self.cfg.get('unenc'))
         _WRAP_CNT[0] = self.cfg['fn'] == 'b1' 
@@ -1247,7 +1292,7 @@ def run_world(case, prop, root, name, skip, fs, clock, probes, faults, log):
                     if len(w.evals) != n0:
                         raise Mismatch('needless-evaluation', 'call %d of a run of calls on resident keys evaluated the '
                                        'function for key %s' % (i, show(kk)))
-                    if cfg.get('tol') is None and cfg.get('ignore') is None and val != w.rfn(*a_, **k_):
+                    if cfg.get('tol') is None and cfg.get('ignore') is None and w.rfn is not None and val != w.rfn(*a_, **k_):
                         raise Mismatch('wrong-result', 'call %d of a run of calls on resident keys returned %r' % (i, val))
                     orc.stats[0] += 1
                     orc.stamp += 1
@@ -1418,6 +1463,9 @@ def run_world(case, prop, root, name, skip, fs, clock, probes, faults, log):
             after = w.observe()
             if prop in ('C15', 'C05') and w.eff_algo != 'no' and len(after['mem']) != 0 and not after['direct']:
                 raise Mismatch('clear', 'clear() left %d entries resident' % len(after['mem']))
+        elif kind == 'gset':
+            _GS['n'] += 1          # module-level state the (by-value pickled) function reads
+            bump(faults, 'module-state-changed')
         elif kind == 'chdir':
             if cfg['backend'] is not None and cfg['backend'].get('rel'):
                 away = os.path.join(w.root, 'elsewhere')
